@@ -1,6 +1,7 @@
 (* C18 — Writer adapters deliver every 188-byte packet once, in order, unmodified.
    Statements only; proofs in Proofs/WriterProofs.v and Proofs/WriterReadFrom.v.
-   Model: Model/PacketWriter.v (Write as in /repo, ReadFrom REPAIRED per F2).
+   Model: Model/PacketWriter.v (Write and ReadFrom as in /repo; ReadFrom since the repair of F2,
+   commit 2f35340: a fill loop instead of one Read per packet).
 
    ORACLES (assumed contracts):
    - wrapped packet writer  w : call index -> packet -> (n, err), any function; the third
@@ -9,10 +10,13 @@
    - reader (ReadFrom): a finite script s of Read results (chunk, optional error).  A Read
      delivers the next chunk, or as much of it as fits into the caller's buffer (the rest on
      the next call); an error is returned with the last bytes of its chunk and is sticky; an
-     exhausted script returns (0, io.EOF) for ever; chunks may be empty.  `script_data s` is the
-     data delivered before the first error, `script_err s` that error (io.EOF when none)
-     (Spec/IOSpec.v).  The reader's own error is assumed not to be io.ErrUnexpectedEOF, which
-     the repaired code cannot tell from io.ReadFull's (C18_unexpected_eof_swallowed).
+     exhausted script returns (0, io.EOF) for ever; chunks may be empty ((0, nil) reads).  The
+     script is FINITE: the reader returns only finitely many zero-length reads before it delivers
+     data or fails.  (A reader that returns (0, nil) for ever makes the fill loop of ReadFrom spin,
+     as it would io.ReadFull; io.Reader implementations are told not to do that.  Unlike bufio,
+     ReadFrom has no cap on consecutive empty reads, so no bound other than finiteness is needed.)
+     `script_data s` is the data delivered before the first error, `script_err s` that error
+     (io.EOF when none) (Spec/IOSpec.v); ANY error value, io.ErrUnexpectedEOF included.
    - pkt is pw.pkt before the call (any 188 bytes).
    `full_chunks D` are the complete 188-byte chunks of D in order, `tail D` the rest (< 188). *)
 From Gots Require Import Base.Prelude Model.PacketWriter Spec.IOSpec Proofs.WriterProofs Proofs.WriterReadFrom.
@@ -53,7 +57,7 @@ Print Assumptions C18_write_bad_len.
    is invalid-length iff the stream ends (io.EOF) in a partial packet, the reader's own error
    if it fails, nil otherwise *)
 Theorem C18_read_from_any_fragmentation : forall w pkt s, length pkt = 188 ->
-  script_err s <> E.UnexpectedEOF -> (forall j c, w j c = (188%Z, None)) ->
+  (forall j c, w j c = (188%Z, None)) ->
   read_from w pkt s
   = Ok ((188 * Z.of_nat (length (full_chunks (script_data s))))%Z,
         (if (script_err s =? E.EOF)%N
@@ -65,7 +69,6 @@ Print Assumptions C18_read_from_any_fragmentation.
 
 (* a failing packet write stops the delivery, for every fragmentation *)
 Theorem C18_read_from_fail_stops : forall w pkt s kf m x, length pkt = 188 ->
-  script_err s <> E.UnexpectedEOF ->
   kf < length (full_chunks (script_data s)) ->
   (forall j, j < kf -> w j (nth j (full_chunks (script_data s)) []) = (188%Z, None)) ->
   w kf (nth kf (full_chunks (script_data s)) []) = (m, Some x) ->
@@ -82,14 +85,14 @@ Theorem C18_write_any_oracle : forall w pkt p, length pkt = 188 -> length p mod 
 Proof. exact write_spec. Qed.
 Print Assumptions C18_write_any_oracle.
 
-(* every writer oracle and every script, WITHOUT the hypothesis on the reader's error: ReadFrom is
-   the fold `rf_spec` over the chunks (Proofs/WriterReadFrom.v), with the reader's error passed
-   through `norm_err` (io.ErrUnexpectedEOF becomes io.EOF — the weakness stated below) *)
-Theorem C18_read_from_general : forall w pkt s, length pkt = 188 ->
+(* every writer oracle and every script: ReadFrom is the fold `rf_spec` over the chunks
+   (Proofs/WriterReadFrom.v: ask the oracle chunk by chunk, stop at its first error or at a count
+   other than 188, else end with invalid-length / the reader's error / nil) *)
+Theorem C18_read_from_any_oracle : forall w pkt s, length pkt = 188 ->
   read_from w pkt s
-  = Ok (rf_spec w (full_chunks (script_data s)) (tail (script_data s)) (norm_err (script_err s)) 0%Z 0 []).
-Proof. exact read_from_general. Qed.
-Print Assumptions C18_read_from_general.
+  = Ok (rf_spec w (full_chunks (script_data s)) (tail (script_data s)) (script_err s) 0%Z 0 []).
+Proof. exact read_from_spec. Qed.
+Print Assumptions C18_read_from_any_oracle.
 
 (* safety for EVERY writer oracle, slice and script: whatever the wrapped writer answers, the packets
    it is handed are a prefix of the complete chunks, in order, each once, unmodified (and nothing at
@@ -126,14 +129,17 @@ Theorem C18_read_from_total : forall w pkt s, length pkt = 188 ->
 Proof. exact read_from_total. Qed.
 Print Assumptions C18_read_from_total.
 
-(* the excluded case is real: a reader failing with io.ErrUnexpectedEOF on a packet boundary is
-   reported as a clean end of stream by the repaired code (weakness of the candidate repair,
-   notes/findings/C18.md) *)
-Theorem C18_unexpected_eof_swallowed :
-  exists w s, (forall j c, w j c = (188%Z, None)) /\ script_err s = E.UnexpectedEOF /\
-    read_from w pkt0 s = Ok (0%Z, None, []).
-Proof. exact read_from_unexpected_eof_swallowed. Qed.
-Print Assumptions C18_unexpected_eof_swallowed.
+(* a reader whose OWN error is io.ErrUnexpectedEOF (decompressors, length-prefixed readers on
+   truncated input) gets it back like any other error, also when it strikes on a packet boundary.
+   (The first candidate repair, io.ReadFull with ErrUnexpectedEOF mapped to EOF, reported a clean end
+   of stream here; notes/findings/C18.md.) *)
+Theorem C18_unexpected_eof_reported : forall w pkt s, length pkt = 188 ->
+  (forall j c, w j c = (188%Z, None)) -> script_err s = E.UnexpectedEOF ->
+  read_from w pkt s
+  = Ok ((188 * Z.of_nat (length (full_chunks (script_data s))))%Z, Some E.UnexpectedEOF,
+        full_chunks (script_data s)).
+Proof. exact read_from_unexpected_eof_reported. Qed.
+Print Assumptions C18_unexpected_eof_reported.
 
 (* non-vacuity: two packets and a 3-byte tail delivered as one-byte reads, a zero-length read,
    and the last byte together with io.EOF *)
